@@ -171,7 +171,7 @@ func oracle(c Case) vkit.Outcome {
 	}
 	fail := func(how, observed, expected string) vkit.Outcome {
 		out.Fail = &vkit.Failure{
-			Sig:      fmt.Sprintf("%s | %s | %s | %s", c.Type, c.Class, c.Mode, how),
+			Sig:      fmt.Sprintf("%s | %s | %s", c.Type, sigClass(c), how),
 			Observed: fmt.Sprintf("%s %s -> %d; %s", c.Mode, clip(sent, 300), w.Status, observed),
 			Expected: expected,
 		}
@@ -202,6 +202,41 @@ func oracle(c Case) vkit.Outcome {
 		return fail("altered", "read back "+clip(string(gotText), 300), want)
 	}
 	return out
+}
+
+// sigClass names the region of the value space a failing value lies in, as
+// coarsely as the known root causes need: for integers whether the value is
+// beyond 2^53 (not exact in a float64), beyond the column's width, or neither;
+// for the time types whether it has fractional seconds.
+func sigClass(c Case) string {
+	switch c.Type {
+	case "int", "int16", "int32", "int64":
+		n, ok := exactInteger(c.Value)
+		if !ok {
+			return c.Class
+		}
+		abs := new(big.Int).Abs(n)
+		width := map[string]uint{"int": 63, "int64": 63, "int32": 31, "int16": 15}[c.Type]
+		lim := new(big.Int).Lsh(big.NewInt(1), width)
+		fits := n.Cmp(lim) < 0 && n.Cmp(new(big.Int).Neg(lim)) >= 0
+		switch {
+		case !n.IsInt64():
+			return "beyond-int64"
+		case abs.Cmp(new(big.Int).Lsh(big.NewInt(1), 53)) > 0:
+			return "beyond-2^53"
+		case !fits:
+			return "beyond-column-width"
+		}
+		return "in-range"
+	case "timestamp", "date", "time":
+		var text string
+		if json.Unmarshal([]byte(c.Value), &text) == nil {
+			if t, ok := parseInstant(text); ok && t.Nanosecond() != 0 {
+				return "fractional-seconds"
+			}
+		}
+	}
+	return c.Class
 }
 
 func nonTrivial(c Case) bool {
